@@ -349,6 +349,14 @@ class PyModule(object):
             elif isinstance(node, ast.AnnAssign) and isinstance(node.target, ast.Name) \
                     and node.target.id == name and node.value is not None:
                 found = node.value
+        if found is None and getattr(self, 'repo', None) is not None:
+            # a table that is spelled out in another module of the package and imported here under its name
+            for s_ in self.tree.body:
+                if isinstance(s_, ast.ImportFrom) and s_.module and s_.level == 0 and any(al.name == name and al.asname in (None, name) for al in s_.names):
+                    for rel in (s_.module.replace('.', '/') + '.py', s_.module.replace('.', '/') + '/__init__.py'):
+                        if self.repo.exists(rel) and rel != self.rel:
+                            found = self.repo.module(rel).assign(name, required=False)
+                            break
         if found is None and required:
             raise AnalysisError('%s: module-level name %r not found' % (self.rel, name))
         return found
@@ -412,6 +420,7 @@ class Repo(object):
             objflat.unalias_memoised(tree)
             objflat.inline_bases(tree, lambda name, tree=tree, rel=rel: self._class_named(tree, rel, name))
             objflat.inline_skeletons(tree)
+            objflat.nest_workers(tree)
             objflat._link(tree)
             objflat.inline_generators(tree, lambda name, tree=tree, rel=rel: self._generator_named(tree, rel, name))
             if rel in FLATTEN_CLASSES:
